@@ -122,9 +122,12 @@ def run(tier: str) -> int:
             # the ends of the range are rungs too: 0 is a legitimate user-supplied cost, not the "not provided" sentinel
             vals = sorted(set(ladder_values(rng, lo, hi)) | {float(lo), float(hi)})
             rungs = [(x, with_param(p, name, x)) for x in vals]
-            L.add('C18_npv_cost', 'nonincreasing', lambda r: r['out']['npv'], rungs, {'parameter': name, 'base': tag})
+            meta = {'parameter': name, 'base': tag}
+            if 'Surface Plant Capital Cost' in p or 'Total Capital Cost' in p:
+                meta['regime'] = 'plant or total capital cost fixed by the user'
+            L.add('C18_npv_cost', 'nonincreasing', lambda r: r['out']['npv'], rungs, dict(meta))
             L.add('C18_lc_cost', 'nondecreasing', lambda r: [r['out']['lcoe'], r['out']['lcoh'], r['out']['lcoc']], rungs,
-                  {'parameter': name, 'base': tag}, precondition=energy_positive)
+                  dict(meta), precondition=energy_positive)
     # the end-use equipment costs of the three special heat plants, on bases that leave plant and total cost to the correlations
     for k in range(6 if tier == 'quick' else 36):
         plant = (5, 6, 7)[k % 3]
